@@ -2750,11 +2750,13 @@ impl LineBuf {
 							pos.set(ch_pos);
 						}
 					}
-					if dest == Dest::Before {
-						match direction {
-							Direction::Forward => pos.sub(1),
-							Direction::Backward => pos.add(1),
-						}
+				}
+				// 't'/'T' stop next to the count-th occurrence (stepping back inside the loop made
+				// the next round find the same occurrence again)
+				if dest == Dest::Before {
+					match direction {
+						Direction::Forward => pos.sub(1),
+						Direction::Backward => pos.add(1),
 					}
 				}
 				MotionKind::Onto(pos.get())
